@@ -184,6 +184,12 @@ def rule_no_alias_results(ctx: Ctx, rule: str = "result-aliasing") -> None:
                 continue
             if isinstance(fi.node, ast.Lambda) or fi.node.returns is None:
                 continue
+            from .pathsim import is_new_helper
+
+            if mname.startswith("_") and is_new_helper(fi.key):
+                # a private helper that did not exist on the reference tree hands its result to the method it was
+                # extracted from: what that method returns is judged there (the helper's origins flow into it)
+                continue
             if E.ann_immutable(fi.node.returns) or norm(fi.node.returns) in ("None", "bool"):
                 continue
             n += 1
